@@ -677,7 +677,7 @@ pub fn build(d: &mut Dna, cfg: &GenCfg) -> Built {
                     for (e, tys) in default_exprs() {
                         for (ty, expect) in tys {
                             let c = expr_ty_caps(ty);
-                            if cfg.plain_types_only && (e.chars().any(|c| c.is_uppercase() && c != 'M') || ty.chars().any(|c| c.is_uppercase()) || expect.chars().any(|c| c.is_uppercase())) {
+                            if cfg.plain_types_only && (e.contains("pick2") || e.chars().any(|c| c.is_uppercase() && c != 'M') || ty.chars().any(|c| c.is_uppercase()) || expect.chars().any(|c| c.is_uppercase())) {
                                 continue;
                             }
                             let mut n = need;
